@@ -248,7 +248,7 @@ fn store(args: &[String]) {
                 }
                 "threads" => {
                     spawn = t[1].parse().unwrap();
-                    format!("THREADS {spawn}")
+                    format!("SPAWNED {spawn}")
                 }
                 "parked" => {
                     let p = kvs.verif_tree().verif_parked();
